@@ -231,5 +231,35 @@ def generate():
     return allopts
 
 
+def leaf_words():
+    """spellings on the root-to-keyword-leaf paths of the trie (unconstrained positions filled with 'q')"""
+    src = strip_comments(read("C/parser/Keywords.cpp"))
+    funcs = functions(src)
+    words = set()
+    lens = {}
+    for d in ("recognize", "translate"):
+        for n, f in dispatcher(src, d).items():
+            lens[f] = n
+
+    def walk(stmts, known, n):
+        for st in stmts:
+            if st[0] == "ret":
+                if st[1] != "IdentifierToken":
+                    words.add("".join(known.get(i, "q") for i in range(n)))
+                return
+            for cond, body in st[1]:
+                k = dict(known)
+                for a in cond:
+                    if a[0] == "chr" and a[1] < n:
+                        k[a[1]] = a[2]
+                walk(body, k, n)
+            if st[2] is not None:
+                walk(st[2], known, n)
+    for f, tree in funcs.items():
+        if f in lens:
+            walk(tree, {}, lens[f])
+    return words
+
+
 if __name__ == "__main__":
     print(generate())
